@@ -1,5 +1,6 @@
 /- line-protocol driver for the C11 models (same operations as harness/pure/src/bin/c11.rs) -/
 import Compio.Model.IoLoops
+import Compio.Model.SyncRead
 
 open Compio Compio.Io
 
@@ -60,6 +61,25 @@ def showErr : IoErr → String
   | .unexpectedEof => "eof"
   | .writeZero => "wz"
   | .other k => s!"e{k}"
+
+/-- session 3: `ss` ops -/
+def parseSyncOp (s : String) : Option SyncOp :=
+  if s = "F" then some .fill
+  else if s.startsWith "R" then ((s.drop 1).toString.toNat?).map .read
+  else if s.startsWith "U" then ((s.drop 1).toString.toNat?).map .read
+  else if s.startsWith "B" then ((s.drop 1).toString.toNat?).map .lend
+  else none
+
+def showSyncEv (op : SyncOp) (ev : SyncEv) : String :=
+  match ev with
+  | .wouldBlock => (match op with | .lend _ => "b:wb" | _ => "r:wb")
+  | .got bs => s!"r:{hexOf bs}"
+  | .lent av c => s!"b:{hexOf av}/{c}"
+  | .filled n => s!"f:{n}"
+  | .fillErr e => s!"f:{showErr e}"
+  | .oom => "f:e?OutOfMemory"
+  | .panic => "panic"
+
 
 def showRes {α} (f : α → String) : Res α → String
   | .ok a => f a
@@ -381,6 +401,14 @@ def step (_ : Unit) (line : String) : Unit × String :=
         let (res, d') := writeVectoredAllAt d pos m
         fin res (s!"{showRes showUnit res} {hexOf d'.bytes}")
       | _, _, _ => "bad-op"
+    | ["ss", base, mx, payload, sc, ops] =>
+      match base.toNat?, mx.toNat?, parseHex payload, parseScript sc, allSome ((listOf "," ops).map parseSyncOp) with
+      | some base, some mx, some payload, some sc, some ops =>
+        let st : SyncSt := ⟨SyncRd.new base mx, payload, sc, []⟩
+        let (evs, st') := st.run ops
+        let toks := (ops.zip evs).map (fun (o, e) => showSyncEv o e)
+        s!"{" ".intercalate toks} | eof={if st'.rd.eof then 1 else 0} rest={hexOf st'.rd.buf.pending} left={st'.stream.length}"
+      | _, _, _, _, _ => "bad-op"
     | _ => "bad-op"
   ((), out)
 
